@@ -26,6 +26,7 @@ def run(rep, tier):
     common.guarded(rep, "C04.2", c04_2, rep, ix)
     sites = common.guarded(rep, "C04.3", c04_3, rep, ix)
     common.guarded(rep, "C04.7", c04_7, rep, ix)
+    common.guarded(rep, "C04.9", c04_9, rep, ix)
     if sites:
         common.guarded(rep, "C04.4", c04_4, rep, ix, sites)
         common.guarded(rep, "C04.8", c04_8, rep, ix, sites)
@@ -35,6 +36,7 @@ def run(rep, tier):
     common.guarded(rep, "C08.5", c08.c08_5, rep, ix)
     from . import c15
     common.guarded(rep, "C15.2", c15.c15_2, rep, ix)       # a variable named like a parameter is still a variable
+    common.guarded(rep, "C15.3", c15.c15_3, rep, ix)       # every writer of the parameter table is a known one (nothing drops or restores entries)
     common.guarded(rep, "C15.1", c15.c15_1, rep, ix, True)       # the p-type filter drops exactly p<digits> names from the reported parameters
     c05.aliasing_lint(rep, ix)
     # a parameter inside an expression goes through the same operators as a number: the operator table of the evaluator holds for symbolic
@@ -264,6 +266,61 @@ def c04_7(rep, ix):
     if verdict is None:
         raise Inconclusive("__call__: expansion of an array value into element parameters not recognised")
     rep.check(verdict, R, ix.site(f, where), "element parameter <p>_<i>_<j> receives element (i, j) of the value passed for <p>", why, key="array value")
+
+
+def c04_9(rep, ix):
+    R = "C04.9"
+    rep.rule(R, "the loop over the passed values refuses only a whole-array value that is not two-dimensional, and binds every other value exactly as it was passed: "
+                "the guards of its raise statements mention the value alone and are false for a two-dimensional value; nothing is stored under the caller's own name but the caller's own value", floor=2)
+    f = ix.func(CALL)
+    fn = f.node
+    from ..py.guards import Reach, AEval, Kind
+    loops = [l for l in walk_shallow(fn) if isinstance(l, ast.For) and " ".join(u(l.iter).split()) == "kwargs.items()" and isinstance(l.target, ast.Tuple) and len(l.target.elts) == 2]
+    if len(loops) != 1:
+        raise Inconclusive("__call__: loop over the passed values not recognised")
+    l = loops[0]
+    k, v = u(l.target.elts[0]), u(l.target.elts[1])
+    fake = ast.FunctionDef(name="_", args=ast.arguments(posonlyargs=[], args=[], kwonlyargs=[], kw_defaults=[], defaults=[]), body=l.body, decorator_list=[])
+    arr = Kind("Array2", {"np.ndarray", "Iterable", "collections.abc.Iterable", "object"}, extra={"ndim": 2, "shape": (2, 2), "size": 4})
+
+    def atom(node):
+        t = " ".join(u(node).split())
+        if t == v:
+            return arr
+        if t in ("np.ndim(%s)" % v, "numpy.ndim(%s)" % v, "np.asarray(%s).ndim" % v, "np.array(%s).ndim" % v, "len(np.shape(%s))" % v):
+            return 2
+        if t in ("np.shape(%s)" % v, "np.asarray(%s).shape" % v):
+            return (2, 2)
+        return AEval.NO
+    n = 0
+    for r in ast.walk(fake):
+        if not isinstance(r, ast.Raise):
+            continue
+        n += 1
+        why = ""
+        try:
+            reach = Reach(fake, r, aliases=True).may_reach(atom)
+            if reach:
+                why = "the refusal is reached for a two-dimensional value"
+        except Inconclusive as ex:
+            # which names does the guard depend on?
+            tests = [x.test for x in ast.walk(fake) if isinstance(x, ast.If) and any(y is r for y in ast.walk(x))]
+            others = sorted({y.id for t_ in tests for y in ast.walk(t_) if isinstance(y, ast.Name) and y.id not in (v, "np", "numpy", "Iterable", "isinstance", "len", "list", "tuple", "str", "bytes", "dict")} |
+                            {u(y) for t_ in tests for y in ast.walk(t_) if isinstance(y, ast.Attribute) and u(y).startswith("self.")})
+            if others:
+                reach, why = True, "the refusal depends on %s, not on the value alone: a call that provides every value the template needs can be refused" % ", ".join("`%s`" % o for o in others[:4])
+            else:
+                raise
+        rep.check(not reach, R, ix.site(f, r), "`%s` is not reached for a two-dimensional array value" % " ".join(u(r).split())[:60], why, key="refusal|" + " ".join(u(r).split())[:60])
+    for a in ast.walk(fake):
+        if isinstance(a, ast.Assign) and len(a.targets) == 1 and isinstance(a.targets[0], ast.Subscript) and u(a.targets[0].slice) == k:
+            n += 1
+            rep.check(u(a.value) == v, R, ix.site(f, a), "`%s`: what is bound under the caller's name is the caller's value" % " ".join(u(a).split())[:60],
+                      "the value is converted before it is bound (a NumPy complex scalar loses its imaginary part through float(), an unsigned / extended one changes type)", key="rebind|" + " ".join(u(a).split())[:60])
+        if isinstance(a, ast.Assign) and len(a.targets) == 1 and isinstance(a.targets[0], ast.Name) and a.targets[0].id == v and a in l.body:
+            n += 1
+            rep.bad(R, ix.site(f, a), "the passed value is not replaced", "`%s`" % " ".join(u(a).split())[:60], key="revalue|" + " ".join(u(a).split())[:60])
+    rep.ok(R, ix.site(f, l), "values loop of __call__ inspected: %d refusals / stores under the caller's name" % n)
 
 
 def c04_4(rep, ix, sites):
